@@ -420,3 +420,59 @@ def analyze_function(fdef, qualname, outer=None):
     out_sites += s
     out_nondet += nd
   return out_sites, out_nondet
+
+
+ONE_SHOT = {'map', 'filter', 'zip', 'iter', 'reversed', 'enumerate'}
+
+
+def _is_one_shot(e, lazy_names):
+  if isinstance(e, ast.GeneratorExp):
+    return True
+  if isinstance(e, ast.Name):
+    return e.id in lazy_names
+  if isinstance(e, ast.Call):
+    f = ast.unparse(e.func)
+    return f in ONE_SHOT or f.startswith('itertools.')
+  return False
+
+
+def lazy_in_state(fdef):
+  """Single-use iterators (map / filter / zip / generator expressions / itertools objects) that a function stores in a
+  state object (a call of a class named *State, `.replace(...)`) or returns: reading such a state consumes it, so the
+  next round is not a function of the state VALUE.  Returns [(function, lineno, text)]."""
+  out = []
+  for fn in [n for n in ast.walk(fdef) if isinstance(n, ast.FunctionDef)]:
+    own = []
+    stack = list(fn.body)
+    while stack:
+      n = stack.pop()
+      own.append(n)
+      for c in ast.iter_child_nodes(n):
+        if not isinstance(c, (ast.FunctionDef, ast.Lambda, ast.ClassDef)):
+          stack.append(c)
+    lazy = {}
+    for n in own:
+      if isinstance(n, ast.Assign) and len(n.targets) == 1 and isinstance(n.targets[0], ast.Name):
+        if _is_one_shot(n.value, ()):
+          lazy[n.targets[0].id] = n.lineno
+    # a name re-bound to a materialised value anywhere in the function is not tracked (flow-insensitive, conservative
+    # towards silence: only names whose EVERY binding is one-shot count)
+    for n in own:
+      if isinstance(n, ast.Assign):
+        for t in n.targets:
+          for nm in ast.walk(t):
+            if isinstance(nm, ast.Name) and nm.id in lazy and not _is_one_shot(n.value, ()):
+              lazy.pop(nm.id, None)
+    for n in own:
+      if isinstance(n, ast.Call):
+        f = ast.unparse(n.func)
+        if f.split('.')[-1].endswith('State') or f.endswith('.replace'):
+          for a in list(n.args) + [k.value for k in n.keywords]:
+            if _is_one_shot(a, lazy):
+              out.append((fn.name, n.lineno, f'{f}(... {ast.unparse(a)[:60]} ...)'))
+      if isinstance(n, ast.Return) and n.value is not None:
+        elts = n.value.elts if isinstance(n.value, ast.Tuple) else [n.value]
+        for a in elts:
+          if _is_one_shot(a, lazy) and not isinstance(a, ast.Call):
+            out.append((fn.name, n.lineno, f'return {ast.unparse(a)[:60]}'))
+  return out
